@@ -1640,6 +1640,10 @@ class UserSpaceImpl(*_user_space_impl_base):
         else:
             self.source = source
 
+        # References given at creation are bound like assigned ones
+        for ref in self.own_refs.values():
+            self.model.refmgr.add_ref(ref)
+
     def _init_own_refs(self):
         return RefDict("own_refs", self)
 
